@@ -11,35 +11,233 @@ theorem tad' {α} (n : Nat) (l x : List α) : l ++ x = l.take n ++ l.drop n ++ x
 
 /-! ### `Base.read` -/
 
-theorem Base.read_none (n : Nat) (hn : 0 < n) (b : Base) (h : (b.read n).1.err = none) :
-    b.flat = (b.read n).1.data ++ (b.read n).2.flat ∧ (b.read n).2.measure < b.measure ∧
-    (b.read n).2.term = b.term := by
+theorem Base.read_term (n : Nat) (b : Base) : (b.read n).2.term = b.term := by
   unfold Base.read
-  unfold Base.read at h
+  cases hc : b.chunks with
+  | nil => rfl
+  | cons c cs =>
+    simp only
+    by_cases hl : c.length ≤ n
+    · by_cases hw : (cs.isEmpty && b.lastWithTerm) = true <;> simp [hl, hw]
+    · simp [hl]
+
+/-- whatever a read returns, it is the front of the stream and the rest is still there -/
+theorem Base.read_flat (n : Nat) (b : Base) : b.flat = (b.read n).1.data ++ (b.read n).2.flat := by
+  unfold Base.read
+  cases hc : b.chunks with
+  | nil => simp [Base.flat, hc]
+  | cons c cs =>
+    simp only
+    by_cases hl : c.length ≤ n
+    · by_cases hw : (cs.isEmpty && b.lastWithTerm) = true
+      · have hcs : cs = [] := by simp at hw; exact hw.1
+        have hlw : b.lastWithTerm = true := by simp at hw; exact hw.2
+        subst hcs; simp [hl, hlw, Base.flat, hc]
+      · simp [hl, hw, Base.flat, hc]
+    · simp only [hl, ↓reduceIte, Base.flat, hc, List.flatten_cons]
+      first | exact tad n c _ | exact tad' n c _
+
+theorem Base.read_measure (n : Nat) (b : Base) :
+    (b.read n).2.measure + (b.read n).1.data.length ≤ b.measure := by
+  unfold Base.read
+  cases hc : b.chunks with
+  | nil => simp [Base.measure, hc]
+  | cons c cs =>
+    simp only
+    by_cases hl : c.length ≤ n
+    · by_cases hw : (cs.isEmpty && b.lastWithTerm) = true
+      · simp [hl, hw, Base.measure, hc]; omega
+      · simp [hl, hw, Base.measure, hc]; omega
+    · simp only [hl, ↓reduceIte, Base.measure, hc, List.map_cons, List.sum_cons, List.length_drop,
+        List.length_take]
+      omega
+
+theorem Base.read_lt (n : Nat) (hn : 0 < n) (b : Base) (h : (b.read n).1.err = none) :
+    (b.read n).2.measure < b.measure := by
+  unfold Base.read at h ⊢
   cases hc : b.chunks with
   | nil => simp [hc] at h
   | cons c cs =>
     simp only [hc] at h ⊢
     by_cases hl : c.length ≤ n
-    · simp [hl, Base.flat, Base.measure, hc]
-    · simp only [hl, ↓reduceIte, Base.flat, Base.measure, hc, List.flatten_cons, List.map_cons,
-        List.sum_cons, List.length_drop]
-      refine ⟨?_, ?_, ?_⟩
-      · first | exact tad n c _ | exact tad' n c _
-      · omega
-      · trivial
+    · by_cases hw : (cs.isEmpty && b.lastWithTerm) = true
+      · simp [hl, hw] at h
+      · simp [hl, hw, Base.measure, hc]
+    · simp only [hl, ↓reduceIte, Base.measure, hc, List.map_cons, List.sum_cons, List.length_drop]
+      omega
 
+/-- a read that reports the end (alone, or together with the last segment) leaves nothing behind -/
 theorem Base.read_some (n : Nat) (b : Base) (e : Term) (h : (b.read n).1.err = some e) :
-    e = b.term ∧ b.flat = [] ∧ (b.read n).1.data = [] := by
+    e = b.term ∧ (b.read n).2.flat = [] := by
   unfold Base.read at h ⊢
   cases hc : b.chunks with
   | nil => simp [hc] at h ⊢; exact ⟨h.symm, by simp [Base.flat, hc]⟩
   | cons c cs =>
-    simp only [hc] at h
-    by_cases hl : c.length ≤ n <;> simp [hl] at h
+    simp only [hc] at h ⊢
+    by_cases hl : c.length ≤ n
+    · by_cases hw : (cs.isEmpty && b.lastWithTerm) = true
+      · simp [hl, hw] at h ⊢
+        exact ⟨h.symm, by simp [Base.flat]⟩
+      · simp [hl, hw] at h
+    · simp [hl] at h
 
-/-! ### `Stack.read`: one read neither loses nor duplicates, and makes progress -/
+theorem Base.read_none (n : Nat) (hn : 0 < n) (b : Base) (h : (b.read n).1.err = none) :
+    b.flat = (b.read n).1.data ++ (b.read n).2.flat ∧ (b.read n).2.measure < b.measure ∧
+    (b.read n).2.term = b.term :=
+  ⟨Base.read_flat n b, Base.read_lt n hn b h, Base.read_term n b⟩
 
+/-! ### `Stack.read`, case by case -/
+
+theorem read_plain (n : Nat) (b : Base) :
+    Stack.plain.read n b = ((b.read n).1, .plain, (b.read n).2) := rfl
+
+theorem read_pre_nil (n : Nat) (b : Base) :
+    (Stack.prefixed []).read n b = ((b.read n).1, .prefixed [], (b.read n).2) := by simp [Stack.read]
+
+theorem read_pre_le (n : Nat) (rest : Bytes) (b : Base) (h : rest ≠ []) (hle : n ≤ rest.length) :
+    (Stack.prefixed rest).read n b = (⟨rest.take n, none⟩, .prefixed (rest.drop n), b) := by
+  have : rest.isEmpty = false := by cases rest <;> simp_all
+  simp [Stack.read, this, hle]
+
+theorem read_pre_gt (n : Nat) (rest : Bytes) (b : Base) (h : rest ≠ []) (hgt : ¬ n ≤ rest.length) :
+    (Stack.prefixed rest).read n b =
+      (⟨rest ++ (b.read (n - rest.length)).1.data, (b.read (n - rest.length)).1.err⟩, .prefixed [],
+        (b.read (n - rest.length)).2) := by
+  have : rest.isEmpty = false := by cases rest <;> simp_all
+  simp [Stack.read, this, hgt]
+
+theorem read_buf_zero (bf : Bytes) (b : Base) :
+    (Stack.bufio bf).read 0 b = (⟨[], none⟩, .bufio bf, b) := by simp [Stack.read]
+
+theorem read_buf_ne (n : Nat) (hn : n ≠ 0) (bf : Bytes) (b : Base) (h : bf ≠ []) :
+    (Stack.bufio bf).read n b = (⟨bf.take n, none⟩, .bufio (bf.drop n), b) := by
+  have : bf.isEmpty = false := by cases bf <;> simp_all
+  simp [Stack.read, this, hn]
+
+theorem read_buf_big (n : Nat) (hn : n ≠ 0) (b : Base) (hsz : bufioSize ≤ n) :
+    (Stack.bufio []).read n b = ((b.read n).1, .bufio [], (b.read n).2) := by
+  simp [Stack.read, hn, hsz]
+
+theorem read_buf_fill_nil (n : Nat) (hn : n ≠ 0) (b : Base) (hsz : ¬ bufioSize ≤ n)
+    (hd : (b.read bufioSize).1.data = []) :
+    (Stack.bufio []).read n b = (⟨[], (b.read bufioSize).1.err⟩, .bufio [], (b.read bufioSize).2) := by
+  simp [Stack.read, hn, hsz, hd]
+
+theorem read_buf_fill (n : Nat) (hn : n ≠ 0) (b : Base) (hsz : ¬ bufioSize ≤ n)
+    (hd : (b.read bufioSize).1.data ≠ []) :
+    (Stack.bufio []).read n b =
+      (⟨(b.read bufioSize).1.data.take n, none⟩, .bufio ((b.read bufioSize).1.data.drop n), (b.read bufioSize).2) := by
+  have : (b.read bufioSize).1.data.isEmpty = false := by
+    cases h : (b.read bufioSize).1.data <;> simp_all
+  simp [Stack.read, hn, hsz, this]
+
+theorem read_snf_ne (n : Nat) (buf : Bytes) (b : Base) (h : buf ≠ []) :
+    (Stack.sniffer buf false).read n b = (⟨buf.take n, none⟩, .sniffer (buf.drop n) false, b) := by
+  have : buf.isEmpty = false := by cases buf <;> simp_all
+  simp [Stack.read, this]
+
+theorem read_snf_nil (n : Nat) (b : Base) :
+    (Stack.sniffer [] false).read n b = ((b.read n).1, .sniffer [] false, (b.read n).2) := by
+  simp [Stack.read]
+
+/-! ### `Stack.read`: one read (ANY size) neither loses nor duplicates; positive sizes make progress -/
+
+structure ReadGen (n : Nat) (st : Stack) (b : Base) : Prop where
+  poison : (st.read n b).2.1.poisoned = false
+  term : (st.read n b).2.2.term = b.term
+  cons : st.content ++ b.flat =
+    (st.read n b).1.data ++ ((st.read n b).2.1.content ++ (st.read n b).2.2.flat)
+  some : ∀ e, (st.read n b).1.err = some e →
+    e = b.term ∧ (st.read n b).2.1.content = [] ∧ (st.read n b).2.2.flat = []
+  lt : 0 < n → (st.read n b).1.err = none → (st.read n b).2.1.measure (st.read n b).2.2 < st.measure b
+
+/-- the wrapper holds nothing and passes the read through to the conn -/
+theorem readGen_through (n : Nat) (st : Stack) (b : Base) (hc : st.content = []) (hp : st.poisoned = false)
+    (h : st.read n b = ((b.read n).1, st, (b.read n).2)) : ReadGen n st b := by
+  refine ⟨by rw [h]; exact hp, by rw [h]; exact Base.read_term n b, ?_, ?_, ?_⟩
+  · rw [h]; simp only [hc, List.nil_append]; exact Base.read_flat n b
+  · intro e he; rw [h] at he ⊢
+    have := Base.read_some n b e he
+    exact ⟨this.1, hc, this.2⟩
+  · intro hn he; rw [h] at he ⊢
+    simp only [Stack.measure, hc, List.length_nil, Nat.zero_add]
+    exact Base.read_lt n hn b he
+
+theorem Stack.read_gen (n : Nat) (st : Stack) (b : Base) (hp : st.poisoned = false) : ReadGen n st b := by
+  cases st with
+  | plain => exact readGen_through n .plain b rfl rfl (read_plain n b)
+  | prefixed rest =>
+    by_cases hr : rest = []
+    · subst hr; exact readGen_through n (.prefixed []) b rfl rfl (read_pre_nil n b)
+    · have hpos : 0 < rest.length := by cases rest <;> simp_all
+      by_cases hle : n ≤ rest.length
+      · have h := read_pre_le n rest b hr hle
+        refine ⟨by rw [h]; rfl, by rw [h], ?_, by intro e he; rw [h] at he; simp at he, ?_⟩
+        · rw [h]; simp only [Stack.content]; first | exact tad n rest _ | exact tad' n rest _
+        · intro hn _; rw [h]; simp only [Stack.measure, Stack.content, List.length_drop]; omega
+      · have h := read_pre_gt n rest b hr hle
+        refine ⟨by rw [h]; rfl, by rw [h]; exact Base.read_term _ b, ?_, ?_, ?_⟩
+        · rw [h]; simp only [Stack.content, List.nil_append, List.append_assoc]
+          rw [← Base.read_flat]
+        · intro e he; rw [h] at he ⊢
+          have := Base.read_some _ b e he
+          exact ⟨this.1, rfl, this.2⟩
+        · intro _ _; rw [h]
+          have := Base.read_measure (n - rest.length) b
+          simp only [Stack.measure, Stack.content, List.length_nil, Nat.zero_add]
+          omega
+  | bufio bf =>
+    by_cases hn0 : n = 0
+    · subst hn0
+      have h := read_buf_zero bf b
+      exact ⟨by rw [h]; rfl, by rw [h], by rw [h]; simp [Stack.content], by intro e he; rw [h] at he; simp at he,
+        fun h0 => by omega⟩
+    · by_cases hb : bf = []
+      · subst hb
+        by_cases hsz : bufioSize ≤ n
+        · exact readGen_through n (.bufio []) b rfl rfl (read_buf_big n hn0 b hsz)
+        · by_cases hd : (b.read bufioSize).1.data = []
+          · have h := read_buf_fill_nil n hn0 b hsz hd
+            refine ⟨by rw [h]; rfl, by rw [h]; exact Base.read_term _ b, ?_, ?_, ?_⟩
+            · rw [h]; simp only [Stack.content, List.nil_append]
+              have := Base.read_flat bufioSize b; rw [hd] at this; simpa using this
+            · intro e he; rw [h] at he ⊢
+              have := Base.read_some bufioSize b e he
+              exact ⟨this.1, rfl, this.2⟩
+            · intro _ he; rw [h] at he ⊢
+              simp only [Stack.measure, Stack.content, List.length_nil, Nat.zero_add]
+              exact Base.read_lt bufioSize (by decide) b he
+          · have h := read_buf_fill n hn0 b hsz hd
+            refine ⟨by rw [h]; rfl, by rw [h]; exact Base.read_term _ b, ?_, ?_, ?_⟩
+            · rw [h]; simp only [Stack.content, List.nil_append]
+              rw [Base.read_flat bufioSize b]
+              first | exact tad n _ _ | exact tad' n _ _
+            · intro e he; rw [h] at he; simp at he
+            · intro _ _; rw [h]
+              have hm := Base.read_measure bufioSize b
+              have hl : 0 < (b.read bufioSize).1.data.length := by
+                cases hdd : (b.read bufioSize).1.data with
+                | nil => exact absurd hdd hd
+                | cons _ _ => simp
+              simp only [Stack.measure, Stack.content, List.length_nil, Nat.zero_add, List.length_drop]
+              omega
+      · have hpos : 0 < bf.length := by cases bf <;> simp_all
+        have h := read_buf_ne n hn0 bf b hb
+        refine ⟨by rw [h]; rfl, by rw [h], ?_, by intro e he; rw [h] at he; simp at he, ?_⟩
+        · rw [h]; simp only [Stack.content]; first | exact tad n bf _ | exact tad' n bf _
+        · intro _ _; rw [h]; simp only [Stack.measure, Stack.content, List.length_drop]; omega
+  | sniffer buf p =>
+    have : p = false := by simpa [Stack.poisoned] using hp
+    subst this
+    by_cases hb : buf = []
+    · subst hb; exact readGen_through n (.sniffer [] false) b rfl rfl (read_snf_nil n b)
+    · have hpos : 0 < buf.length := by cases buf <;> simp_all
+      have h := read_snf_ne n buf b hb
+      refine ⟨by rw [h]; rfl, by rw [h], ?_, by intro e he; rw [h] at he; simp at he, ?_⟩
+      · rw [h]; simp only [Stack.content]; first | exact tad n buf _ | exact tad' n buf _
+      · intro hn _; rw [h]; simp only [Stack.measure, Stack.content, List.length_drop]; omega
+
+/-- the shape the copy-loop proofs use -/
 structure ReadSpec (n : Nat) (st : Stack) (b : Base) : Prop where
   poison : (st.read n b).2.1.poisoned = false
   term : (st.read n b).2.2.term = b.term
@@ -51,188 +249,11 @@ structure ReadSpec (n : Nat) (st : Stack) (b : Base) : Prop where
 
 theorem Stack.read_spec (n : Nat) (hn : 0 < n) (st : Stack) (b : Base) (hp : st.poisoned = false) :
     ReadSpec n st b := by
-  cases st with
-  | plain =>
-    refine ⟨rfl, ?_, ?_, ?_⟩
-    · simp only [Stack.read]
-      cases he : (b.read n).1.err with
-      | none => exact (Base.read_none n hn b he).2.2
-      | some e =>
-        unfold Base.read at he ⊢
-        cases hc : b.chunks with
-        | nil => simp [hc]
-        | cons c cs => simp only [hc] at he; by_cases hl : c.length ≤ n <;> simp [hl] at he
-    · intro h
-      have := Base.read_none n hn b h
-      simp only [Stack.read, Stack.content, Stack.measure, List.nil_append, List.length_nil, Nat.zero_add]
-      exact ⟨this.1, this.2.1⟩
-    · intro e h
-      have := Base.read_some n b e h
-      simp only [Stack.read, Stack.content, List.nil_append]
-      exact ⟨this.1, by rw [this.2.1, this.2.2]⟩
-  | prefixed rest =>
-    by_cases hr : rest = []
-    · subst hr
-      have hterm : (b.read n).2.term = b.term := by
-        unfold Base.read
-        cases hc : b.chunks with
-        | nil => simp
-        | cons c cs => simp only; split <;> rfl
-      refine ⟨by simp [Stack.read, Stack.poisoned], by simpa [Stack.read] using hterm, ?_, ?_⟩
-      · intro h
-        simp only [Stack.read, List.isEmpty_nil, ite_true] at h ⊢
-        have := Base.read_none n hn b h
-        simp only [Stack.content, Stack.measure, List.nil_append, List.length_nil, Nat.zero_add]
-        exact ⟨this.1, this.2.1⟩
-      · intro e h
-        simp only [Stack.read, List.isEmpty_nil, ite_true] at h ⊢
-        have := Base.read_some n b e h
-        simp only [Stack.content, List.nil_append]
-        exact ⟨this.1, by rw [this.2.1, this.2.2]⟩
-    · have hne : rest.isEmpty = false := by cases rest <;> simp_all
-      by_cases hle : n ≤ rest.length
-      · refine ⟨by simp [Stack.read, hne, hle, Stack.poisoned], by simp [Stack.read, hne, hle], ?_, ?_⟩
-        · intro _
-          simp only [Stack.read, hne, hle, Bool.false_eq_true, ↓reduceIte, Stack.content, Stack.measure,
-            List.length_drop]
-          refine ⟨?_, ?_⟩
-          · first | exact tad n rest _ | exact tad' n rest _
-          · have : 0 < rest.length := by cases rest <;> simp_all
-            omega
-        · intro e h; simp [Stack.read, hne, hle] at h
-      · have hterm : (b.read (n - rest.length)).2.term = b.term := by
-          unfold Base.read
-          cases hc : b.chunks with
-          | nil => simp
-          | cons c cs => simp only; split <;> rfl
-        refine ⟨by simp [Stack.read, hne, hle, Stack.poisoned], by simpa [Stack.read, hne, hle] using hterm, ?_, ?_⟩
-        · intro h
-          simp only [Stack.read, hne, hle, Bool.false_eq_true, ↓reduceIte] at h ⊢
-          have := Base.read_none (n - rest.length) (by omega) b h
-          simp only [Stack.content, Stack.measure, List.nil_append, List.length_nil, Nat.zero_add,
-            List.append_assoc]
-          refine ⟨by rw [this.1], ?_⟩
-          have := this.2.1; omega
-        · intro e h
-          simp only [Stack.read, hne, hle, Bool.false_eq_true, ↓reduceIte] at h ⊢
-          have := Base.read_some (n - rest.length) b e h
-          simp only [Stack.content]
-          exact ⟨this.1, by rw [this.2.1, this.2.2]⟩
-  | bufio buffered =>
-    have hn0 : ¬ n = 0 := by omega
-    have hterm : ∀ k, (b.read k).2.term = b.term := by
-      intro k; unfold Base.read
-      cases hc : b.chunks with
-      | nil => simp
-      | cons c cs => simp only; split <;> rfl
-    by_cases hb : buffered = []
-    · subst hb
-      by_cases hsz : bufioSize ≤ n
-      · refine ⟨by simp [Stack.read, hn0, ↓reduceIte, hsz, Stack.poisoned], by simpa [Stack.read, hn0, ↓reduceIte, hsz] using hterm n, ?_, ?_⟩
-        · intro h
-          simp only [Stack.read, hn0, ↓reduceIte, List.isEmpty_nil, hsz, ite_true, Bool.not_true, Bool.false_eq_true,
-            ite_false] at h ⊢
-          have := Base.read_none n hn b h
-          simp only [Stack.content, Stack.measure, List.nil_append, List.length_nil, Nat.zero_add]
-          exact ⟨this.1, this.2.1⟩
-        · intro e h
-          simp only [Stack.read, hn0, ↓reduceIte, List.isEmpty_nil, hsz, ite_true, Bool.not_true, Bool.false_eq_true,
-            ite_false] at h ⊢
-          have := Base.read_some n b e h
-          simp only [Stack.content, List.nil_append]
-          exact ⟨this.1, by rw [this.2.1, this.2.2]⟩
-      · by_cases hd : (b.read bufioSize).1.data.isEmpty = true
-        · refine ⟨by simp [Stack.read, hn0, ↓reduceIte, hsz, hd, Stack.poisoned],
-            by simpa [Stack.read, hn0, ↓reduceIte, hsz, hd] using hterm bufioSize, ?_, ?_⟩
-          · intro h
-            simp only [Stack.read, hn0, ↓reduceIte, List.isEmpty_nil, hsz, hd, ite_true, Bool.not_true,
-              Bool.false_eq_true, ite_false] at h ⊢
-            have := Base.read_none bufioSize (by decide) b h
-            have hd' : (b.read bufioSize).1.data = [] := by simpa using hd
-            simp only [Stack.content, Stack.measure, List.nil_append, List.length_nil, Nat.zero_add]
-            refine ⟨by rw [this.1, hd']; rfl, this.2.1⟩
-          · intro e h
-            simp only [Stack.read, hn0, ↓reduceIte, List.isEmpty_nil, hsz, hd, ite_true, Bool.not_true,
-              Bool.false_eq_true, ite_false] at h ⊢
-            have := Base.read_some bufioSize b e h
-            simp only [Stack.content, List.nil_append]
-            exact ⟨this.1, this.2.1⟩
-        · have hd0 : (b.read bufioSize).1.data.isEmpty = false := by simpa using hd
-          have herr : (b.read bufioSize).1.err = none := by
-            cases he : (b.read bufioSize).1.err with
-            | none => rfl
-            | some e => have := (Base.read_some bufioSize b e he).2.2; simp [this] at hd0
-          refine ⟨by simp [Stack.read, hn0, ↓reduceIte, hsz, hd0, Stack.poisoned],
-            by simpa [Stack.read, hn0, ↓reduceIte, hsz, hd0] using hterm bufioSize, ?_, ?_⟩
-          · intro _
-            simp only [Stack.read, hn0, ↓reduceIte, List.isEmpty_nil, hsz, hd0, ite_true, Bool.not_true,
-              Bool.false_eq_true, ite_false]
-            have := Base.read_none bufioSize (by decide) b herr
-            simp only [Stack.content, Stack.measure, List.nil_append, List.length_nil, Nat.zero_add,
-              List.length_drop]
-            refine ⟨?_, ?_⟩
-            · rw [this.1]; first | exact tad n _ _ | exact tad' n _ _
-            · have h1 := this.2.1
-              have h2 : b.flat.length = (b.read bufioSize).1.data.length + (b.read bufioSize).2.flat.length := by
-                rw [this.1, List.length_append]
-              have hpos : 0 < (b.read bufioSize).1.data.length := by
-                cases hdd : (b.read bufioSize).1.data with
-                | nil => simp [hdd] at hd0
-                | cons _ _ => simp
-              -- the fill consumed a whole chunk (or part of one): measure drops by at least its length
-              have hm : (b.read bufioSize).2.measure + (b.read bufioSize).1.data.length ≤ b.measure := by
-                unfold Base.read at herr ⊢
-                cases hc : b.chunks with
-                | nil => simp [hc] at herr
-                | cons c cs =>
-                  simp only [hc]
-                  by_cases hl : c.length ≤ bufioSize
-                  · simp [hl, Base.measure, hc]; omega
-                  · simp only [hl, ite_false, Base.measure, hc, List.map_cons, List.sum_cons,
-                      List.length_drop, List.length_take]
-                    omega
-              omega
-          · intro e h
-            simp [Stack.read, hn0, ↓reduceIte, hsz, hd0] at h
-    · have hne : buffered.isEmpty = false := by cases buffered <;> simp_all
-      refine ⟨by simp [Stack.read, hn0, ↓reduceIte, hne, Stack.poisoned], by simp [Stack.read, hn0, ↓reduceIte, hne], ?_, ?_⟩
-      · intro _
-        simp only [Stack.read, hn0, ↓reduceIte, hne, Bool.not_false, ite_true, Stack.content, Stack.measure,
-          List.length_drop]
-        refine ⟨by first | exact tad n buffered _ | exact tad' n buffered _, ?_⟩
-        have : 0 < buffered.length := by cases buffered <;> simp_all
-        omega
-      · intro e h; simp [Stack.read, hn0, ↓reduceIte, hne] at h
-  | sniffer buf poison =>
-    have hpo : poison = false := by simpa [Stack.poisoned] using hp
-    subst hpo
-    have hterm : ∀ k, (b.read k).2.term = b.term := by
-      intro k; unfold Base.read
-      cases hc : b.chunks with
-      | nil => simp
-      | cons c cs => simp only; split <;> rfl
-    by_cases hb : buf = []
-    · subst hb
-      refine ⟨by simp [Stack.read, Stack.poisoned], by simpa [Stack.read] using hterm n, ?_, ?_⟩
-      · intro h
-        simp only [Stack.read, Bool.false_eq_true, ite_false, List.isEmpty_nil, Bool.not_true] at h ⊢
-        have := Base.read_none n hn b h
-        simp only [Stack.content, Stack.measure, List.nil_append, List.length_nil, Nat.zero_add]
-        exact ⟨this.1, this.2.1⟩
-      · intro e h
-        simp only [Stack.read, Bool.false_eq_true, ite_false, List.isEmpty_nil, Bool.not_true] at h ⊢
-        have := Base.read_some n b e h
-        simp only [Stack.content, List.nil_append]
-        exact ⟨this.1, by rw [this.2.1, this.2.2]⟩
-    · have hne : buf.isEmpty = false := by cases buf <;> simp_all
-      refine ⟨by simp [Stack.read, hne, Stack.poisoned], by simp [Stack.read, hne], ?_, ?_⟩
-      · intro _
-        simp only [Stack.read, Bool.false_eq_true, ite_false, hne, Bool.not_false, ite_true,
-          Stack.content, Stack.measure, List.length_drop]
-        refine ⟨by first | exact tad n buf _ | exact tad' n buf _, ?_⟩
-        have : 0 < buf.length := by cases buf <;> simp_all
-        omega
-      · intro e h; simp [Stack.read, hne] at h
+  have g := Stack.read_gen n st b hp
+  refine ⟨g.poison, g.term, fun h => ⟨g.cons, g.lt hn h⟩, fun e h => ?_⟩
+  have := g.some e h
+  refine ⟨this.1, ?_⟩
+  rw [g.cons, this.2.1, this.2.2]; simp
 
 /-! ### the copy loop -/
 
@@ -371,70 +392,15 @@ theorem engineCopy_identity (env : Env) (fuel : Nat) (st : Stack) (b : Base)
 
 /-! ### arbitrary interleavings of `Read` (any size, 0 included) and `TakeRelaySegments` -/
 
-theorem Base.read_flat (n : Nat) (b : Base) (h : (b.read n).1.err = none) :
-    b.flat = (b.read n).1.data ++ (b.read n).2.flat := by
-  unfold Base.read at h ⊢
-  cases hc : b.chunks with
-  | nil => simp [hc] at h
-  | cons c cs =>
-    simp only [hc]
-    by_cases hl : c.length ≤ n
-    · simp [hl, Base.flat, hc]
-    · simp only [hl, ↓reduceIte, Base.flat, hc, List.flatten_cons]
-      first | exact tad n c _ | exact tad' n c _
-
-/-- a zero-length `Read` never moves a byte in a way that loses it -/
-theorem Stack.read_zero (st : Stack) (b : Base) (hp : st.poisoned = false) :
-    (st.read 0 b).2.1.poisoned = false ∧
-    ((st.read 0 b).1.err = none →
-      st.content ++ b.flat = (st.read 0 b).1.data ++ ((st.read 0 b).2.1.content ++ (st.read 0 b).2.2.flat)) ∧
-    (∀ e, (st.read 0 b).1.err = some e → st.content ++ b.flat = (st.read 0 b).1.data) := by
-  cases st with
-  | plain =>
-    refine ⟨rfl, fun h => ?_, fun e h => ?_⟩
-    · simpa [Stack.read, Stack.content] using Base.read_flat 0 b h
-    · have := Base.read_some 0 b e h
-      simp [Stack.read, Stack.content, this.2.1, this.2.2]
-  | prefixed rest =>
-    by_cases hr : rest = []
-    · subst hr
-      refine ⟨by simp [Stack.read, Stack.poisoned], fun h => ?_, fun e h => ?_⟩
-      · simp only [Stack.read, List.isEmpty_nil, ↓reduceIte] at h ⊢
-        simpa [Stack.content] using Base.read_flat 0 b h
-      · simp only [Stack.read, List.isEmpty_nil, ↓reduceIte] at h ⊢
-        have := Base.read_some 0 b e h
-        simp [Stack.content, this.2.1, this.2.2]
-    · have hne : rest.isEmpty = false := by cases rest <;> simp_all
-      refine ⟨by simp [Stack.read, hne, Stack.poisoned], fun _ => ?_, fun e h => ?_⟩
-      · simp [Stack.read, hne, Stack.content]
-      · simp [Stack.read, hne] at h
-  | bufio bf =>
-    refine ⟨by simp [Stack.read, Stack.poisoned], fun _ => by simp [Stack.read, Stack.content],
-      fun e h => by simp [Stack.read] at h⟩
-  | sniffer buf p =>
-    have : p = false := by simpa [Stack.poisoned] using hp
-    subst this
-    by_cases hb : buf = []
-    · subst hb
-      refine ⟨by simp [Stack.read, Stack.poisoned], fun h => ?_, fun e h => ?_⟩
-      · simp only [Stack.read, Bool.false_eq_true, ↓reduceIte, List.isEmpty_nil, Bool.not_true] at h ⊢
-        simpa [Stack.content] using Base.read_flat 0 b h
-      · simp only [Stack.read, Bool.false_eq_true, ↓reduceIte, List.isEmpty_nil, Bool.not_true] at h ⊢
-        have := Base.read_some 0 b e h
-        simp [Stack.content, this.2.1, this.2.2]
-    · have hne : buf.isEmpty = false := by cases buf <;> simp_all
-      refine ⟨by simp [Stack.read, hne, Stack.poisoned], fun _ => by simp [Stack.read, hne, Stack.content],
-        fun e h => by simp [Stack.read, hne] at h⟩
-
 theorem Stack.read_any (n : Nat) (st : Stack) (b : Base) (hp : st.poisoned = false) :
     (st.read n b).2.1.poisoned = false ∧
     ((st.read n b).1.err = none →
       st.content ++ b.flat = (st.read n b).1.data ++ ((st.read n b).2.1.content ++ (st.read n b).2.2.flat)) ∧
     (∀ e, (st.read n b).1.err = some e → st.content ++ b.flat = (st.read n b).1.data) := by
-  rcases Nat.eq_zero_or_pos n with h0 | hpos
-  · subst h0; exact Stack.read_zero st b hp
-  · have spec := Stack.read_spec n hpos st b hp
-    exact ⟨spec.poison, fun h => (spec.none h).1, fun e h => (spec.some e h).2⟩
+  have g := Stack.read_gen n st b hp
+  refine ⟨g.poison, fun _ => g.cons, fun e h => ?_⟩
+  have := g.some e h
+  rw [g.cons, this.2.1, this.2.2]; simp
 
 theorem runActs_conserves :
     ∀ (as : List Act) (st : Stack) (b : Base), st.poisoned = false →
